@@ -35,13 +35,13 @@ var c14Files = []string{"file:///root.raml", "file:///lib/extra1.raml", "file://
 
 // c14FileSets: the same three roles (root file, two included files) in spellings a URI library would rewrite if the
 // strings took a detour through it: blanks, non-ASCII, already-escaped octets, dot segments, upper-case scheme and
-// host, query and fragment, relative references, Windows paths. The report must carry them verbatim.
+// host, query and fragment. The report must carry them verbatim (consumers key on the string). Relative references are left
+// out on purpose: resolving them against the root location would be a legitimate reading of "the file the node was declared in".
 var c14FileSets = [][]string{
 	c14Files,
 	{"file:///my api/root file.raml", "file:///work/shared types/lib.raml", "file:///lib/josé/größe.raml"},
 	{"FILE:///Root.raml", "file:///api/../common/./lib.raml", "HTTP://EXAMPLE.org:80/a%20b/%7Euser/lib.raml"},
-	{"root.raml", "types/user.raml", "../common/lib.raml"},
-	{"file:///C:/api/root.raml", "C:\\api\\types\\user.raml", "file://./test/lib.raml?rev=1&x=a+b#/types/0"},
+	{"file:///C:/api/root.raml", "file:///c:/API/types/user.raml", "file://./test/lib.raml?rev=1&x=a+b#/types/0"},
 	{"urn:uuid:6e8bc430-9c3a-11d9-9669-0800200c9a66", "jar:file:/libs/x.jar!/lib.raml", "file:///a/%2e%2e/b/%E6%97%A5.raml"},
 }
 
@@ -385,7 +385,7 @@ func c14Walk(c *Ctx, cs c14Case, report string, exp map[string]*c14Loc) (nres, w
 func init() {
 	Register(Meta{
 		ID: "C14", Level: "exploration",
-		Rule:        "AMF-shaped source maps generated for a 6-node skeleton (2 nodes failing at top level, 1 failing through a nested child so a sub-result and its trace carry the child's location, passing nodes): axis R = every 4-tuple (start line/column, end line/column) over a magnitude alphabet (0 .. 2^31 .. 2^53+1 [.. 10^20]); axis F = every assignment of nodes to {root file, 2 additional files} (1 or several additional locations, 1 or several elements each); axis U = 5 further spellings of the three file names (blanks, non-ASCII, escaped octets, dot segments, upper-case scheme/host, query and fragment, relative references, Windows paths, urn:/jar: schemes) x 4 assignments, reported verbatim; axis E = every subset of nodes having a node-level entry x property-level-only entries, with and without BaseUnitSourceInformation; no source maps; size axis: 1..70 failing nodes with one source map each and counts around every power of two up to 1024 (4096); axis K = every constraint kind of the C01 atom catalogue (plain, negated, as a condition) plus uniqueValues on a path, nested/atLeast/atMost, alternative/inverse/sequence paths, custom Rego in three forms, and/or/not/if-then-else, each on its own small graph with lexical entries on two thirds of the nodes (some declared in an additional file). Oracle: location present iff node-level entry, numbers equal as decimal strings, uri = declaring file; and the report equals the source-map-free report once all location members are deleted. Non-trivial = document where at least one reported node has a location and one does not, or any axis-R/F case with locations; distinct by document text.",
+		Rule:        "AMF-shaped source maps generated for a 6-node skeleton (2 nodes failing at top level, 1 failing through a nested child so a sub-result and its trace carry the child's location, passing nodes): axis R = every 4-tuple (start line/column, end line/column) over a magnitude alphabet (0 .. 2^31 .. 2^53+1 [.. 10^20]); axis F = every assignment of nodes to {root file, 2 additional files} (1 or several additional locations, 1 or several elements each); axis U = 4 further spellings of the three (absolute) file names (blanks, non-ASCII, escaped octets, dot segments, upper-case scheme/host, drive letters, query and fragment, urn:/jar: schemes) x 4 assignments, reported verbatim; axis E = every subset of nodes having a node-level entry x property-level-only entries, with and without BaseUnitSourceInformation; no source maps; size axis: 1..70 failing nodes with one source map each and counts around every power of two up to 1024 (4096); axis K = every constraint kind of the C01 atom catalogue (plain, negated, as a condition) plus uniqueValues on a path, nested/atLeast/atMost, alternative/inverse/sequence paths, custom Rego in three forms, and/or/not/if-then-else, each on its own small graph with lexical entries on two thirds of the nodes (some declared in an additional file). Oracle: location present iff node-level entry, numbers equal as decimal strings, uri = declaring file; and the report equals the source-map-free report once all location members are deleted. Non-trivial = document where at least one reported node has a location and one does not, or any axis-R/F case with locations; distinct by document text.",
 		Assumptions: []string{"one lexical entry per node (AMF emits one)"},
 	}, func(tier string, emit func(c14Case)) { c14GenCases(tier, emit) }, c14Run)
 }
